@@ -22,6 +22,9 @@ theorem pow_256_2 : (256 : Nat) ^ 2 = 65536 := by decide
 
 /-! ### layout of the field list -/
 
+/-- An RLP list item: `list-header(payload length) ‖ payload`. -/
+def rlpList (payload : Bytes) : Bytes := encodeHeader true payload.length ++ payload
+
 /-- The NODES record list: `list-header(total record bytes) ‖ records`. -/
 def nodesField (records : List Bytes) : Bytes :=
   encodeHeader true records.flatten.length ++ records.flatten
@@ -91,6 +94,21 @@ theorem decode_frame (recDec : Bytes → Option Bytes) (ty : UInt8) (id tail : B
     Res.ok_bind]
   simp only [List.getElem_cons_zero]
 
+/-- `decode ∘ encode` up to the request id, for every message value. -/
+theorem decode_encode_eq (recDec : Bytes → Option Bytes) (id : Bytes) (b : Body)
+    (hsize : (encode ⟨id, b⟩).length < 2 ^ 64) :
+    decode recDec (encode ⟨id, b⟩) =
+      if id.length > 8 then .err .invalidIdLength else decodeBody recDec b.msgType id b.tail := by
+  rw [encode_eq, frame_length] at hsize
+  rw [encode_eq]
+  exact decode_frame recDec b.msgType id b.tail (tail_ne_nil b) (by dsimp only at hsize ⊢; omega)
+
+theorem tail_size (id : Bytes) (b : Body) (hsize : (encode ⟨id, b⟩).length < 2 ^ 64) :
+    b.tail.length < 2 ^ 64 := by
+  rw [encode_eq, frame_length] at hsize
+  simp only [List.length_append] at hsize
+  omega
+
 /-! ### IP addresses -/
 
 theorem ipOfBytes_wf (ip : Ip) (h : IpWF ip) : ipOfBytes ip.octets = .ok ip := by
@@ -150,6 +168,20 @@ theorem ipOfBytes_ok (b : Bytes) (ip : Ip) (h : ipOfBytes b = .ok ip) :
           subst this
           simp [IpLenOk, h16]
     · rw [if_neg h16] at h; simp at h
+
+theorem ipOfBytes_total (b : Bytes) (h : b.length = 4 ∨ b.length = 16) :
+    ∃ ip, ipOfBytes b = .ok ip := by
+  unfold ipOfBytes
+  simp only [Consts.RPC_IP4_LEN, Consts.RPC_IP6_LEN]
+  by_cases h4 : b.length = 4
+  · rw [if_pos h4]; exact ⟨_, rfl⟩
+  · rw [if_neg h4, if_pos (by omega)]
+    by_cases hlo : isLoopback b = true
+    · rw [if_pos hlo]; exact ⟨_, rfl⟩
+    · rw [if_neg hlo]
+      cases toIpv4 b with
+      | none => exact ⟨_, rfl⟩
+      | some v => exact ⟨_, rfl⟩
 
 theorem ipOfBytes_bad (b : Bytes) (h4 : b.length ≠ 4) (h16 : b.length ≠ 16) :
     ipOfBytes b = .err .badIpLength := by
